@@ -2063,3 +2063,9 @@ V('C15', 'start-without-resolve', SIM, "            self._resolver.resolve()\n  
   note="seed C15-11: names registered after an explicit finalize() stay unresolved")
 V('C15', 'start-resolve-if-not-finalized', SIM, "            self._resolver.resolve()\n            self.finalize()\n",
   "            if not self._finalized:\n                self._resolver.resolve()\n            self.finalize()\n", 'R15.9')
+
+# ----------------------------------------------------------------------------- defect F18 (C14)
+V('C14', 'f18-reverted', BLK, "        if not self._dest.circuit.is_ready():\n", "        if not simulator.get_circuit().is_ready():\n", 'R14.1',
+  note="pre-fix tree: the gate asks the current circuit, not the destination's")
+V('C14', 'event-etype-not-posonly', ADD, "    def event(self, etype: str|block.EventType, /, **data) -> Any:\n",
+  "    def event(self, etype: str|block.EventType, **data) -> Any:\n", 'R14.4', note="seed C14-10")
